@@ -10,10 +10,16 @@
     * raw control characters (U+0001 .. U+001F) inside strings and member names;
     * literals `null` / `true` / `false` with any letters in upper case.
 
+    * numbers with superfluous leading zeros (`007`, `-01.5`) and / or an exponent without digits
+      (`1e`, `2.5E+`): `XNum`.
+
   `XDoc.text` renders it, `XDoc.erase` is the RFC 8259 document it stands for (the "original
-  document" of the property), `XDoc.plain` says that no extension occurs.  The remaining forms of
-  the property (superfluous leading zeros, exponents without digits, trailing bytes after the value) change or end a single token and are covered by the
-  per-token theorems of Props/C16.lean.
+  document" of the property), `XDoc.plain` says that no extension occurs, `XDoc.denote` is the value
+  default mode returns for it.  `XDoc.denote` and the value of the original document differ only at
+  numbers: a double keeps the text it was read from (so `01.5` is the double 1.5 retaining "01.5"),
+  and an integer followed by a digit-less exponent (`1e`) is read as a double (`denote_eq_erase`,
+  `denote_same_numbers`).  The remaining form of the property (trailing bytes after the value) is
+  `trailing_bytes` in Props/C16.lean.
 -/
 import JsonC.Spec.Rfc8259
 
@@ -86,9 +92,37 @@ def itemOkX : StrItem → Bool
 def itemsOkX (q : Quote) (items : List StrItem) : Bool :=
   items.all (fun i => itemOkX i && (q == .dq || i != .raw 39))
 
+/-- a number with the number extensions: `zeros` superfluous '0's between the sign and the integer
+digits, and `bare` = an exponent marker (upper case?) with an optional sign (`some true` = '-') but no
+digits, possible only when the number has no exponent of its own -/
+structure XNum where
+  base : Num
+  zeros : Nat
+  bare : Option (Bool × Option Bool)
+  deriving Repr, DecidableEq
+
+def XNum.ofNum (n : Num) : XNum := ⟨n, 0, none⟩
+
+def bareText : Option (Bool × Option Bool) → Bytes
+  | none => []
+  | some (up, sg) => (if up then (69 : UInt8) else 101) :: signText sg
+
+/-- the number without the digit-less exponent: what default mode keeps as the text of a double -/
+def XNum.lit (x : XNum) : Bytes :=
+  signByte x.base.neg ++ List.replicate x.zeros 48 ++ digitsText x.base.int ++ fracText x.base.frac ++ expText x.base.exp
+def XNum.text (x : XNum) : Bytes := x.lit ++ bareText x.bare
+def XNum.ok (x : XNum) : Bool := x.base.ok && (x.bare.isNone || x.base.exp.isNone)
+def XNum.plain (x : XNum) : Bool := x.zeros == 0 && x.bare.isNone
+/-- read as a double: a fraction, an exponent, or a digit-less exponent -/
+def XNum.isDouble (x : XNum) : Bool := x.base.frac.isSome || x.base.exp.isSome || x.bare.isSome
+/-- the value default mode returns: the integer of the original number, or the double of the original
+number retaining the text as written (without the digit-less exponent) -/
+def XNum.denote (x : XNum) : JVal :=
+  if x.isDouble then .dbl (Dbl.strtod x.base.text).1 (some x.lit) else x.base.denote
+
 inductive XDoc where
   | lit (k : LitKind) (caps : List Bool)
-  | num (n : Num)
+  | num (n : XNum)
   | str (q : Quote) (items : List StrItem)
   /-- `[` gap `]`, or `[` elems (`,` gap)? `]` -/
   | arr (gapEmpty : Gap) (elems : List (Gap × XDoc × Gap)) (trail : Option Gap)
@@ -125,7 +159,7 @@ mutual
   quotes, lower-case literals -/
   def XDoc.erase : XDoc → Doc
     | .lit k _ => k.doc
-    | .num n => .num n
+    | .num n => .num n.base
     | .str _ items => .str items
     | .arr g es _ => .arr g.erase (xelemsErase es)
     | .obj g ms _ => .obj g.erase (xmembersErase ms)
@@ -159,7 +193,7 @@ mutual
   /-- no extension occurs: the text is an RFC 8259 text -/
   def XDoc.plain : XDoc → Bool
     | .lit _ caps => caps.all (· == false)
-    | .num _ => true
+    | .num n => n.plain
     | .str q items => q == .dq && items.all StrItem.ok
     | .arr g [] tr => g.plain && tr.isNone
     | .arr _ es tr => xelemsPlain es && tr.isNone          -- (the gap of the empty form is not rendered)
@@ -172,6 +206,37 @@ mutual
     | [] => true
     | (g1, q, k, g2, g3, d, g4) :: r =>
       g1.plain && (q == .dq && k.all StrItem.ok) && g2.plain && g3.plain && XDoc.plain d && g4.plain && xmembersPlain r
+end
+
+mutual
+  /-- the value default mode returns (same shape as `Doc.denote`; numbers by `XNum.denote`) -/
+  def XDoc.denote : XDoc → JVal
+    | .lit k _ => k.doc.denote
+    | .num n => n.denote
+    | .str _ items => .str (decodeItems items)
+    | .arr _ es _ => .arr (xelemsDenote es)
+    | .obj _ ms _ => .obj (xmembersDenote ms [])
+  def xelemsDenote : List (Gap × XDoc × Gap) → List JVal
+    | [] => []
+    | (_, d, _) :: r => XDoc.denote d :: xelemsDenote r
+  def xmembersDenote : List (Gap × Quote × List StrItem × Gap × Gap × XDoc × Gap) → List (Bytes × JVal) → List (Bytes × JVal)
+    | [], acc => acc
+    | (_, _, k, _, _, d, _) :: r, acc => xmembersDenote r (addOrReplace acc (decodeItems k) (XDoc.denote d))
+end
+
+mutual
+  /-- no number of the document is written with a number extension -/
+  def XDoc.numsPlain : XDoc → Bool
+    | .num n => n.plain
+    | .arr _ es _ => xelemsNumsPlain es
+    | .obj _ ms _ => xmembersNumsPlain ms
+    | _ => true
+  def xelemsNumsPlain : List (Gap × XDoc × Gap) → Bool
+    | [] => true
+    | (_, d, _) :: r => XDoc.numsPlain d && xelemsNumsPlain r
+  def xmembersNumsPlain : List (Gap × Quote × List StrItem × Gap × Gap × XDoc × Gap) → Bool
+    | [] => true
+    | (_, _, _, _, _, d, _) :: r => XDoc.numsPlain d && xmembersNumsPlain r
 end
 
 /-- a whole text: gap value gap -/
